@@ -417,6 +417,71 @@ fn build_binary() -> Result<(), String> {
     }
 }
 
+/// Supplementary sanitizer leg: the same formatter under Miri (UB, leaks, invalid UTF-8), sharded over
+/// processes. Returns (serialisations run under Miri, violations, inconclusive notes).
+fn miri_leg(tier: Tier) -> (u64, Vec<(String, String)>, Vec<String>) {
+    let (shards, budget, limit) = tier.pick((6usize, 250usize, Duration::from_secs(420)), (16, 1200, Duration::from_secs(2400)));
+    let mut children = Vec::new();
+    for s in 0..shards {
+        let c = Command::new("cargo")
+            .args(["+nightly", "miri", "run", "--offline", "--manifest-path", "/verif/harness/miri-cjson/Cargo.toml", "--", &budget.to_string(), &(s * 11).to_string()])
+            .env("CARGO_NET_OFFLINE", "true")
+            .env("CARGO_TARGET_DIR", "/verif/.cache/target-miri")
+            .stdin(Stdio::null())
+            .stdout(Stdio::piped())
+            .stderr(Stdio::piped())
+            .spawn();
+        match c {
+            Ok(c) => children.push(c),
+            Err(e) => return (0, vec![], vec![format!("cargo miri could not be started: {e}")]),
+        }
+        // the first shard builds; give it a head start so that the others find the build done
+        if s == 0 {
+            std::thread::sleep(Duration::from_secs(6));
+        }
+    }
+    let t0 = Instant::now();
+    let mut total = 0u64;
+    let mut viols = Vec::new();
+    let mut inconc = Vec::new();
+    for mut c in children {
+        // generous wall-clock watchdog: its firing is inconclusive, never a violation
+        loop {
+            match c.try_wait() {
+                Ok(Some(_)) => break,
+                Ok(None) if t0.elapsed() > limit => {
+                    let _ = c.kill();
+                    inconc.push("miri shard exceeded its wall-clock budget".to_string());
+                    break;
+                }
+                Ok(None) => std::thread::sleep(Duration::from_millis(200)),
+                Err(_) => break,
+            }
+        }
+        let Ok(o) = c.wait_with_output() else { continue };
+        let so = String::from_utf8_lossy(&o.stdout).to_string();
+        let se = String::from_utf8_lossy(&o.stderr).to_string();
+        if let Some(l) = so.lines().find(|l| l.starts_with("MIRI-WORKLOAD-DONE")) {
+            if let Some(n) = l.split("serialisations=").nth(1).and_then(|x| x.split(' ').next()).and_then(|x| x.parse::<u64>().ok()) {
+                total += n;
+            }
+        } else if !inconc.iter().any(|x| x.contains("budget")) {
+            if se.contains("Undefined Behavior") {
+                let first = se.lines().find(|l| l.contains("Undefined Behavior")).unwrap_or("").to_string();
+                viols.push(("miri:undefined-behaviour".to_string(), first));
+            } else if se.contains("memory leaked") {
+                viols.push(("miri:leak".to_string(), se.lines().find(|l| l.contains("leaked")).unwrap_or("").to_string()));
+            } else {
+                inconc.push(format!("miri shard ended without result: {}", se.lines().rev().take(3).collect::<Vec<_>>().join(" | ")));
+            }
+        }
+        for l in so.lines().filter(|l| l.starts_with("MISMATCH") || l.starts_with("NOT-INJECTIVE") || l.starts_with("FLOAT-EMITTED") || l.starts_with("REFUSED")).take(3) {
+            viols.push((format!("miri-leg:{}", l.split(' ').next().unwrap_or("").to_lowercase()), l.to_string()));
+        }
+    }
+    (total, viols, inconc)
+}
+
 pub fn run(cfg: &Cfg) -> i32 {
     let start = Instant::now();
     if let Err(e) = build_binary() {
@@ -435,6 +500,8 @@ pub fn run(cfg: &Cfg) -> i32 {
         cases.push(Case::Binary { i });
     }
     let budget = cfg.tier.pick(Duration::from_secs(300), Duration::from_secs(1800));
+    let tier = cfg.tier;
+    let miri = if cfg.replay.is_none() { Some(std::thread::spawn(move || miri_leg(tier))) } else { None };
     let mut ev = par_run(cfg, cases.len() as u64, budget, |w, i| {
         let mut out = CaseOut::default();
         match cases.get(i as usize)? {
@@ -446,6 +513,20 @@ pub fn run(cfg: &Cfg) -> i32 {
     });
     ev.exhaustive = false;
     ev.extra.push(("keyset_space_exhaustive(size<=3, 8 symbols, key length<=2, all insertion orders)".into(), J::Bool(true)));
+    if let Some(h) = miri {
+        let (n, viols, inconc) = h.join().unwrap_or((0, vec![], vec!["miri thread panicked".into()]));
+        ev.extra.push(("serialisations_under_miri".into(), J::U(n)));
+        ev.evaluations += n;
+        if n > 0 {
+            *ev.hist.entry("kind=miri-leg".into()).or_insert(0) += n;
+        }
+        for (sig, detail) in viols {
+            ev.viols.push((u64::MAX, Viol { signature: sig, detail }, Some(obj! {"kind" => "miri leg (cargo +nightly miri run on harness/miri-cjson)"})));
+        }
+        for i in inconc {
+            *ev.inconclusive.entry(i).or_insert(0) += 1;
+        }
+    }
     let required = vec![
         "kind=exhaustive-keysets".into(),
         "kind=random-depth<=4".into(),
